@@ -167,6 +167,13 @@ func (w *World) staticOutputs(out *OutputLog) {
 			// formatting of the parsed query
 			if q, err := contactql.ParseQuery(w.Env, g.Query(), sa); err == nil {
 				out.add(fmt.Sprintf("query/group%d", gi), q.String())
+				// what hosts store next to a saved query: attributes, schemes and references it uses
+				if p := guarded(func() {
+					b, _ := json.Marshal(contactql.Inspect(q))
+					out.add(fmt.Sprintf("query-inspect/group%d", gi), string(b))
+				}); p != "" {
+					out.add(fmt.Sprintf("query-inspect/group%d", gi), "PANIC "+firstLine(p))
+				}
 			}
 		}
 	}
